@@ -78,6 +78,11 @@ func main() {
 			fmt.Printf("block %d (%s) states=%d preds=%v succs=%v last=%s\n", b.Index, b.Comment, len(f.in[b]), idxs(b.Preds), idxs(b.Succs), b.Instrs[len(b.Instrs)-1])
 		}
 		return
+	case "panics":
+		c := newCtx("dev", "quick")
+		c.Load("./...")
+		devPanics(c, os.Args[2:])
+		return
 	case "conv":
 		c := newCtx("dev", "quick")
 		c.Load("./...")
